@@ -18,9 +18,9 @@ import (
 )
 
 func TestC06(t *testing.T) {
-	V.Rule("lab: requests with 0-6 existing Via entries (now and then, below the sender's, a well-formed one this proxy cannot decode - IPv6 reference, blanks around the slashes or the colon - alone on its line or sharing it) and 0-4 Record-Route entries in any line layout and at any position among the other headers, over the three request paths (backend, Route, static route), must-record-route absent/true/false per listen entry, UDP and TCP ingress, next hop learned through the receiving listener, learned through another listener (an earlier request came from that host), or never learned. Oracle: Via list = [SIP/2.0/<listener transport> addr:port;branch=z9hG4bK+a generated part, never seen before in the run] + input iff destination is a backend or a learned hop (else = input); Record-Route list = [<sip:addr:port;lr>] + input iff a Via was pushed and (input has Record-Route or must-record-route), else = input. Hops known only from the message being routed, or known by name vs by address only, are don't-cares. A fault history (backend-outage): in-dialog requests before, during and after an outage of the TCP backend their dialog is pinned to - whatever arrives at any backend carries exactly one Via and at most one Record-Route entry of the listener. Branch freshness over every request of the run plus a dedicated run of 12000 (thorough: 20000) relayed requests. non-trivial = >= 2 existing Via entries in >= 2 lines, or >= 1 existing Record-Route, or the not-learned / other-listener variants; distinct by message")
+	V.Rule("lab: requests with 0-6 existing Via entries (now and then, below the sender's, a well-formed one this proxy cannot decode - IPv6 reference, blanks around the slashes or the colon - alone on its line or sharing it) and 0-4 Record-Route entries in any line layout and at any position among the other headers, over the three request paths (backend, Route, static route), must-record-route absent/true/false per listen entry, UDP and TCP ingress, next hop learned through the receiving listener, learned through another listener (an earlier request came from that host), or never learned. Oracle: Via list = [SIP/2.0/<listener transport> addr:port;branch=z9hG4bK+a generated part, never seen before in the run] + input iff destination is a backend or a learned hop (else = input); Record-Route list = [<sip:addr:port;lr>] + input iff a Via was pushed and (input has Record-Route or must-record-route), else = input. Hops known only from the message being routed, or written as a name that was never learned while its address was, are don't-cares; a hop known by name only (the name listed in a Via, its address never seen: learned-by-name) is a learned hop. A fault history (backend-outage): in-dialog requests before, during and after an outage of the TCP backend their dialog is pinned to - whatever arrives at any backend carries exactly one Via and at most one Record-Route entry of the listener. Branch freshness over every request of the run plus a dedicated run of 12000 (thorough: 20000) relayed requests. non-trivial = >= 2 existing Via entries in >= 2 lines, or >= 1 existing Record-Route, or the not-learned / other-listener variants; distinct by message")
 	V.Assume("branch freshness is a probabilistic oracle: 48 random bits, P(collision among 20000) < 1e-6")
-	V.Require("requests of a dialog whose pinned tcp backend goes down and comes back", "a learned hop still known after thousands of other hosts were learned", "an existing Via entry the proxy cannot decode, sharing its line with decodable ones", "an unrelated TCP connection ended before the request", "via pushed", "no via (hop not learned)", "via names another listener", "rr added", "rr not added (policy)", "existing rr kept", "path:backend", "path:route", "path:static", ">=2 vias in >=2 lines")
+	V.Require("a hop known by name only (listed in a Via; its address never seen)", "requests of a dialog whose pinned tcp backend goes down and comes back", "a learned hop still known after thousands of other hosts were learned", "an existing Via entry the proxy cannot decode, sharing its line with decodable ones", "an unrelated TCP connection ended before the request", "via pushed", "no via (hop not learned)", "via names another listener", "rr added", "rr not added (policy)", "existing rr kept", "path:backend", "path:route", "path:static", ">=2 vias in >=2 lines")
 	vars := []stdVariant{
 		{MustRR: [3]string{"", "true", "false"}, NoReceived: [3]string{"", "", "true"}},
 		{Keep: "on", MustRR: [3]string{"true", "", ""}},
@@ -141,6 +141,71 @@ func TestC06(t *testing.T) {
 	// What the proxy has learned stays learned, however many other hosts it
 	// hears of afterwards: the primed hop (learned first) is still reached with
 	// the proxy's Via on top after thousands of other hosts have been learned.
+	// A next hop known by name only: the name was listed in a Via of an earlier
+	// request; nothing ever came from the address the host table gives for it and
+	// no message wrote that address. Routed to by that name it is a learned hop.
+	t.Run("learned-by-name", func(t *testing.T) {
+		if (V.replay && V.only != "learned-by-name") || V.ViolationCount() > 0 {
+			return
+		}
+		for si, s := range svcs {
+			for ni, name := range []string{"natted-a.test", "natted-b.test"} {
+				target := s.ip(27 + ni)
+				teachEntry, probeEntry := (si+ni)%2, ni%2
+				ua := s.uas[2]
+				probe := func(when string, wantVias int, wantL labListenCfg) bool {
+					l := s.in.cfg.Listens[probeEntry]
+					send := func(b []byte) error { return ua.sendUDP(l.Addr, l.UDPPort, b) }
+					id := s.nextID("c06name-")
+					wire := []byte(fmt.Sprintf("OPTIONS sip:x@elsewhere.example SIP/2.0\r\nVia: SIP/2.0/UDP %s:5060;branch=z9hG4bK%s\r\nRoute: <sip:%s:5070;lr>\r\nFrom: <sip:a@b>;tag=1\r\nTo: <sip:x@elsewhere.example>\r\nCall-ID: %s\r\nCSeq: 1 OPTIONS\r\nContent-Length: 0\r\n\r\n", ua.ip, id, name, id))
+					s.model.learnRequest(s.model.transport(probeEntry, "udp"), ua.ip, &AMsg{IsReq: true, Hdrs: []AHdr{{Kind: hVia, Vias: []AVia{{Host: ua.ip}}}}})
+					s.in.expect(wire)
+					send(wire)
+					rs, err := s.in.settle(send, 1)
+					V.Eval()
+					got := labMessages(rs)
+					if err != nil || len(got) != 1 || got[0].ep == nil || got[0].ep.ip != target {
+						V.Violation(t, "learned-by-name", nil, "%s: a request whose Route names %s:5070 (host table: %s) was not relayed exactly once to that element: %v\n%s", when, name, target, err, labDescribe(got))
+						return false
+					}
+					vs := got[0].msg.Entries(hVia)
+					if len(vs) != wantVias {
+						V.Violation(t, "learned-by-name", map[string]any{"name": name, "when": when}, "%s, a request routed to %s:5070 through listen entry %d arrived with Via entries %q; expected %d entries (%s)", when, name, probeEntry, vs, wantVias, map[int]string{1: "the hop is not learned: relayed as it is", 2: "the hop is learned: the proxy's own on top"}[wantVias])
+						return false
+					}
+					if wantVias == 2 {
+						v, err := rVia(vs[0])
+						if err != nil || !strings.EqualFold(v.Transport, "UDP") || v.Host != wantL.Addr || v.Port != wantL.UDPPort {
+							V.Violation(t, "learned-by-name", map[string]any{"name": name}, "%s, the Via pushed for the hop %s is %q; the hop was learned through listen entry %d (UDP %s:%d)", when, name, vs[0], teachEntry, wantL.Addr, wantL.UDPPort)
+							return false
+						}
+					}
+					return true
+				}
+				if !probe("before anything mentioned "+name, 1, labListenCfg{}) {
+					return
+				}
+				// the teaching request: unroutable, its Via stack lists the name
+				tl := s.in.cfg.Listens[teachEntry]
+				tsend := func(b []byte) error { return s.uas[3].sendUDP(tl.Addr, tl.UDPPort, b) }
+				id := s.nextID("c06teach-")
+				teach := []byte(fmt.Sprintf("OPTIONS sip:nobody@unrouted.invalid SIP/2.0\r\nVia: SIP/2.0/UDP %s:5060;branch=z9hG4bK%s\r\nVia: SIP/2.0/UDP %s:5070;branch=z9hG4bKn%s\r\nFrom: <sip:a@b>;tag=1\r\nTo: <sip:nobody@unrouted.invalid>\r\nCall-ID: %s\r\nCSeq: 1 OPTIONS\r\nContent-Length: 0\r\n\r\n", s.uas[3].ip, id, name, id, id))
+				s.model.learnRequest(s.model.transport(teachEntry, "udp"), s.uas[3].ip, &AMsg{IsReq: true, Hdrs: []AHdr{{Kind: hVia, Vias: []AVia{{Host: s.uas[3].ip}, {Host: name}}}}})
+				s.in.expect(teach)
+				tsend(teach)
+				if _, err := s.in.settle(tsend, 0); err != nil {
+					V.Violation(t, "learned-by-name", nil, "%v", err)
+					return
+				}
+				if !probe(fmt.Sprintf("after a request received on listen entry %d listed %s in a Via", teachEntry, name), 2, tl) {
+					return
+				}
+				V.Class("a hop known by name only (listed in a Via; its address never seen)")
+				V.NonTrivial(fmt.Sprintf("learned-by-name|%d|%s", si, name))
+			}
+		}
+	})
+
 	t.Run("learned-hosts-survive", func(t *testing.T) {
 		if (V.replay && V.only != "learned-hosts-survive") || V.ViolationCount() > 0 {
 			return
